@@ -21,6 +21,7 @@ var (
 	fReplay  = flag.String("sim.replay", "", "replay file to execute")
 	fShrink  = flag.String("sim.shrink", "", "replay file to minimise (rewritten in place to -sim.out)")
 	fDigests = flag.Bool("sim.digests", false, "record per-run digests")
+	fAttempts = flag.Int("sim.attempts", 1, "replay attempts")
 	fTmp     = flag.String("sim.tmp", "", "scratch directory of this process")
 )
 
@@ -63,6 +64,11 @@ func TestReplay(t *testing.T) {
 		t.Skip("no replay file")
 	}
 	rr := RunReplay(t, *fReplay)
+	// properties that depend on a nondeterminism source without a seam (Go's map iteration
+	// order, C11) repeat the replay; everything else is deterministic and runs once
+	for i := 1; i < *fAttempts && !rr.Reproduced && rr.Infra == ""; i++ {
+		rr = RunReplay(t, *fReplay)
+	}
 	raw, _ := json.MarshalIndent(rr, "", " ")
 	if *fOut != "" {
 		_ = os.WriteFile(*fOut, raw, 0o644)
